@@ -4,6 +4,7 @@ import (
 	"context"
 	"errors"
 	"fmt"
+	gosync "sync"
 
 	"golang.org/x/sync/semaphore"
 	"oras.land/oras-go/v2/internal/syncutil"
@@ -44,11 +45,14 @@ func seamJobs(th bool) []driver.Job {
 }
 
 func limiterSeam(c *driver.Ctx, limit, failing int) (func(), func(*vs.Result) *driver.Fail) {
+	var mon gosync.Mutex // monitor bookkeeping (real lock: only matters in the free-running race pass)
 	inside, maxInside := 0, 0
 	ran := make([]int, 3)
 	var fails []string
 	var err error
 	enter := func() {
+		mon.Lock()
+		defer mon.Unlock()
 		inside++
 		if inside > maxInside {
 			maxInside = inside
@@ -60,10 +64,14 @@ func limiterSeam(c *driver.Ctx, limit, failing int) (func(), func(*vs.Result) *d
 	body := func() {
 		limiter := semaphore.NewWeighted(int64(limit))
 		err = syncutil.Go(context.Background(), limiter, func(ctx context.Context, region *syncutil.LimitedRegion, i int) error {
+			mon.Lock()
 			ran[i]++
+			mon.Unlock()
 			enter()
 			vs.Pt("work1")
+			mon.Lock()
 			inside--
+			mon.Unlock()
 			region.End()
 			vs.Pt("outside")
 			if i == failing {
@@ -74,7 +82,9 @@ func limiterSeam(c *driver.Ctx, limit, failing int) (func(), func(*vs.Result) *d
 			}
 			enter()
 			vs.Pt("work2")
+			mon.Lock()
 			inside--
+			mon.Unlock()
 			return nil
 		}, 0, 1, 2)
 	}
